@@ -293,20 +293,9 @@ class SymInt:
 
     # ---- concretisation
     def concretize(self, why=''):
-        en = eng()
-        dom = en.domain(self.e)
-        if not dom:
-            raise Abort('infeasible')
-        if len(dom) > MAXDOM:
-            # too many values to fork over: continue with three of them (under-approximation).  The run is marked
-            # incomplete - it can still find a (replayed) counterexample but can no longer conclude 'holds'.
-            en.sampled = 'concretisation for %s' % why
-            picks = sorted({dom[0], min(dom), max(dom)})
-            i = en.choose([self.e == v for v in picks])
-            return signed(picks[i])
-        dom.sort()
-        i = en.choose([self.e == v for v in dom])
-        return signed(dom[i])
+        # more than MAXDOM values: continues with a few of them (under-approximation).  The run is then marked
+        # incomplete - it can still find a (replayed) counterexample but can no longer conclude 'holds'.
+        return signed(eng().choose_concrete(self.e, why))
 
     def __hash__(self):
         en = eng()
